@@ -63,7 +63,9 @@ func newChainFixture(t interface{ Fatalf(string, ...interface{}) }, fee string, 
 	case "const":
 		f.pay.WithdrawFee = func(a *big.Int) *big.Int { return new(big.Int).Sub(a, big.NewInt(2500)) }
 	case "prop":
-		f.pay.WithdrawFee = func(a *big.Int) *big.Int { return new(big.Int).Div(new(big.Int).Mul(a, big.NewInt(99)), big.NewInt(100)) }
+		f.pay.WithdrawFee = func(a *big.Int) *big.Int {
+			return new(big.Int).Div(new(big.Int).Mul(a, big.NewInt(99)), big.NewInt(100))
+		}
 	}
 	return f
 }
